@@ -675,13 +675,15 @@ impl Compiler {
             is_generator,
         } = params;
 
-        self.frame_stack.push(Frame::new(
+        let frame = Frame::new(
             local_count,
             &self.collect_args(args, ctx)?,
             captures,
             output_type,
             is_generator,
-        ));
+        )
+        .map_err(|e| self.make_error(e))?;
+        self.frame_stack.push(frame);
 
         // Check argument types and unpack nested args
         for (arg_index, arg) in args.iter().enumerate() {
